@@ -31,7 +31,10 @@ ITER_FUNCS = ["accumulate", "batched", "chain", "combinations", "combinations_wi
               "tee_second", "tee_fork_exhausted", "tee_fork_mid", "accumulate_initial", "chain_from_iterable", "islice_step", "zip_longest_fill"]
 
 
-def cell(sym, cov, op, outermost=False):
+def cell(sym, cov, op, outermost=False, hist="direct"):
+    """hist: 'direct' -- the task cancels the scopes itself right before the call;
+             'after-shield' -- a peer cancels them while the task spends a few cycles in a nested shielded section (so the
+             cancellation delivery has gone idle); the call is made after that section has been left"""
     import anyio
     from anyio import CancelScope, WouldBlock, create_memory_object_stream
 
@@ -193,12 +196,21 @@ def cell(sym, cov, op, outermost=False):
         s0 = sym.bool("outer_shield") if outermost else False
         with CancelScope() as outermost_scope, CancelScope(shield=s0) as outer:
             with CancelScope(shield=s1) as inner:
-                if c2:
-                    outermost_scope.cancel()
-                if c0:
-                    outer.cancel()
-                if c1:
-                    inner.cancel()
+                def do_cancels():
+                    if c2:
+                        outermost_scope.cancel()
+                    if c0:
+                        outer.cancel()
+                    if c1:
+                        inner.cancel()
+
+                if hist == "after-shield":
+                    with CancelScope(shield=True):
+                        loop.call_soon(do_cancels)
+                        for _ in range(4):
+                            await asyncio.sleep(0)
+                else:
+                    do_cancels()
                 eff = bool(c1) or (not s1 and (bool(c0) or (not s0 and bool(c2))))
                 if need_cancel_only and not eff:
                     sym.assume(False)
@@ -490,7 +502,12 @@ def units(tier):
     us = []
     for op in OPS:
         us.append({"name": "op %s" % op, "fn": cell, "params": {"op": op}, "budget_s": 60})
+    for op in OPS:
+        if op not in ("taskgroup_empty",):
+            us.append({"name": "op %s after a shielded section during which a peer cancelled" % op, "fn": cell, "params": {"op": op, "hist": "after-shield"}, "budget_s": 60})
     if tier != "quick":
+        for op in OPS:
+            us.append({"name": "op %s (3 scopes) after a shielded section" % op, "fn": cell, "params": {"op": op, "outermost": True, "hist": "after-shield"}, "budget_s": 300})
         for op in OPS:
             us.append({"name": "op %s (3 scopes)" % op, "fn": cell, "params": {"op": op, "outermost": True}, "budget_s": 300})
     for op in SYNC_OPS:
